@@ -10,27 +10,34 @@ EXTENDS Rpki, RpkiDom, Json, SequencesExt, FiniteSetsExt
 
 CONSTANTS Mode, Fam, K, MaxSteps
 
-VARIABLES S, ops, pool
-gvars == <<ps, ms, tbl, S, ops, pool>>
+VARIABLES S, pat, ops, pool
+gvars == <<ps, ms, tbl, S, pat, ops, pool>>
 
 PoolOf(f) == IF f = "v4" THEN Records4 ELSE Records6
 Tag(r, c) == [c |-> c, p |-> r.p, m |-> r.m, a |-> r.a]
 
 SetKey == IF Fam = "v4" THEN "set-v4" ELSE "set-v6"
 
-(* sets mode *)
+(* sets mode: the records are added one by one, the last one is deleted and added again, the first
+   one is deleted, one source is flushed.  Sources: two records -> both patterns (same source /
+   different sources), three records -> c1, c2, c1. *)
+SrcOf(i, n) == IF n = 2 THEN (IF i = 2 /\ pat = 2 THEN "c2" ELSE "c1")
+               ELSE IF i = 2 THEN "c2" ELSE "c1"
 SetOps(T) == LET q == SetToSeq(T)
                  n == Len(q)
-                 tagged == [i \in 1..n |-> Tag(q[i], IF i = 2 THEN "c2" ELSE "c1")]
+                 tagged == [i \in 1..n |-> Tag(q[i], SrcOf(i, n))]
              IN [i \in 1..n |-> [op |-> "Add", r |-> tagged[i], v |-> (i = n)]]
+                \o (IF n >= 2 THEN <<[op |-> "Del", r |-> tagged[n], v |-> TRUE],
+                                     [op |-> "Add", r |-> tagged[n], v |-> FALSE]>> ELSE <<>>)
                 \o <<[op |-> "Del", r |-> tagged[1], v |-> TRUE]>>
                 \o (IF n >= 2 THEN <<[op |-> "DelAll", c |-> "c1", v |-> TRUE]>> ELSE <<>>)
 
 GenInit == /\ Init
            /\ ops = <<>>
            /\ IF Mode = "sets"
-              THEN S \in UNION {kSubset(k, PoolOf(Fam)) : k \in 1..K} /\ pool = {}
-              ELSE /\ S = {}
+              THEN /\ S \in UNION {kSubset(k, PoolOf(Fam)) : k \in 1..K} /\ pool = {}
+                   /\ pat \in (IF Cardinality(S) = 2 THEN {1, 2} ELSE {1})
+              ELSE /\ S = {} /\ pat = 1
                    /\ pool = LET a == RandomElement(AllRecords)
                              IN {a, RandomElement({x \in AllRecords : x.p = a.p}), RandomElement(Records4),
                                  RandomElement(Records4), RandomElement(Records6), RandomElement(AllRecords)}
@@ -40,7 +47,7 @@ GenNext == /\ Mode = "walk" /\ Len(ops) < MaxSteps
               \/ ops' = Append(ops, [op |-> "Add", r |-> Tag(RandomElement(pool), RandomElement({"c1", "c2"})), v |-> TRUE])
               \/ ops' = Append(ops, [op |-> "Del", r |-> Tag(RandomElement(pool), RandomElement({"c1", "c2"})), v |-> TRUE])
               \/ (RandomElement(1..10) <= 3 /\ ops' = Append(ops, [op |-> "DelAll", c |-> RandomElement({"c1", "c2"}), v |-> TRUE]))
-           /\ UNCHANGED <<vars, S, pool>>
+           /\ UNCHANGED <<vars, S, pat, pool>>
 
 GenSpec == GenInit /\ [][GenNext]_gvars
 
